@@ -16,7 +16,7 @@ class C03(Check):
         if not hasattr(self, 'll'): self.ll = LangLex(self)
         if not hasattr(self, 'pkit'): self.pkit = ProjectKit(self, log=self.log)
         req = ('compared', 'cursor on an entity', 'cursor on nothing', 'implementation found', 'type definition found', 'definition differs from declaration')
-        ds = DS.DESIGNS if self.tier != 'quick' else [[DS.D_GENERIC, DS.D_SEM, DS.D_SYN], [DS.D_ZOO, DS.D_SYN], [DS.D_TREE, DS.D_RECORDS, DS.D_SEM]][self.seed % 3]
+        ds = DS.DESIGNS if self.tier != 'quick' else [[DS.D_GENERIC, DS.D_SEM, DS.D_SYN, DS.D_EMPTYLIB], [DS.D_ZOO, DS.D_SYN, DS.D_EMPTYLIB], [DS.D_TREE, DS.D_RECORDS, DS.D_SEM, DS.D_EMPTYLIB]][self.seed % 3]
         ps = [CursorQueries('queries at a symbolic cursor', ds, 'C03', required=req if self.tier != 'quick' else req[:3], window=30 if self.tier == 'quick' else None, window_at=self.seed // 3)]
         mreq = ('compared', 'semantic diagnostics', 'syntax diagnostics', 'line structure changed')
         if self.tier == 'quick': ps.append(MutatedAnalysis('analysis and queries on a damaged design (every 32nd token)', DS.MUT_DESIGN, stride=32, offset=self.seed % 32, required=mreq))
